@@ -16,6 +16,8 @@ pub enum HKind {
     Write { base: u64 },
     Read { data: Vec<u8> },
     Discard,
+    /// flush_meta + fsync_range, both Ok
+    Sync,
     Other,
 }
 
@@ -205,12 +207,23 @@ pub fn exec_par(w: &mut World, st: &Step) -> bool {
                                 rec.err = format!("{e:?}");
                             }
                         }
-                        Op::Flush | Op::SyncPoint => {
+                        Op::Flush => {
                             if let Err(e) = dev.flush_meta().await {
                                 rec.ok = false;
                                 rec.err = format!("{e:?}");
                             }
                         }
+                        Op::SyncPoint => match dev.flush_meta().await {
+                            Err(e) => {
+                                rec.ok = false;
+                                rec.err = format!("{e:?}");
+                            }
+                            Ok(()) => {
+                                if dev.fsync_range(0, usize::MAX).await.is_ok() {
+                                    rec.kind = HKind::Sync;
+                                }
+                            }
+                        },
                         Op::Shrink => {
                             if let Err(e) = dev.shrink_caches().await {
                                 rec.ok = false;
@@ -284,6 +297,66 @@ pub fn exec_par(w: &mut World, st: &Step) -> bool {
                 conc: true,
             }),
             _ => {}
+        }
+    }
+    // sync points inside the batch (C05): everything that had returned when
+    // the syncing client called flush_meta is durable once its fsync_range
+    // returned.  Only clusters whose content at that moment is determined are
+    // put under obligation: no discard in the batch touches them and no two
+    // writes that returned before the sync overlap each other in time.
+    {
+        let mut syncs: Vec<&HOp> = hist.iter().filter(|h| matches!(h.kind, HKind::Sync) && h.ok).collect();
+        syncs.sort_by_key(|h| h.seq1);
+        for sy in syncs {
+            let mut model = w.model.clone();
+            let mut pre: Vec<&HOp> = hist
+                .iter()
+                .filter(|h| matches!(h.kind, HKind::Write { .. }) && h.ok && h.len > 0 && h.ret < sy.inv)
+                .collect();
+            pre.sort_by_key(|h| h.ret);
+            let mut ambiguous: BTreeSet<u64> = BTreeSet::new();
+            for d in hist.iter().filter(|h| matches!(h.kind, HKind::Discard)) {
+                if let Some((a, b)) = w.model.discard_bounds(d.off, d.len) {
+                    if b - a > 4096 {
+                        // a huge discard: give up on this sync point
+                        ambiguous.insert(u64::MAX);
+                    } else {
+                        ambiguous.extend(a..b);
+                    }
+                }
+            }
+            if ambiguous.contains(&u64::MAX) {
+                continue;
+            }
+            // failed writes leave their clusters undetermined
+            for h in hist.iter().filter(|h| matches!(h.kind, HKind::Write { .. }) && !h.ok && h.len > 0) {
+                ambiguous.extend(h.off / cs..=(h.off + h.len - 1) / cs);
+            }
+            for (i, a) in pre.iter().enumerate() {
+                for b in pre.iter().skip(i + 1) {
+                    let (a0, a1) = (a.off / cs, (a.off + a.len - 1) / cs);
+                    let (b0, b1) = (b.off / cs, (b.off + b.len - 1) / cs);
+                    if a0 <= b1 && b0 <= a1 && a.inv < b.ret && b.inv < a.ret {
+                        ambiguous.extend(a0.max(b0)..=a1.min(b1));
+                    }
+                }
+            }
+            let mut clusters: BTreeSet<u64> = w.interesting.iter().copied().collect();
+            for h in &pre {
+                if let HKind::Write { base } = h.kind {
+                    model.write(h.off, h.len as usize, base);
+                    clusters.extend(h.off / cs..=(h.off + h.len - 1) / cs);
+                }
+            }
+            let clusters: Vec<u64> = clusters.into_iter().filter(|g| !ambiguous.contains(g)).take(96).collect();
+            w.stat("sync_points_inside_batches");
+            w.sync_points.push(crate::world::SyncPt {
+                alt_from: sy.seq0,
+                seq: sy.seq1,
+                model,
+                alt: w.alt.clone(),
+                clusters,
+            });
         }
     }
     // Known finding KF02: a discard that overlaps in time with a write_at to
